@@ -5,21 +5,31 @@ order, result or error with any retry decision), connection failure under an att
 timer fires (speculative execution or client timeout), next executor task runs, next page is
 requested}.  Every transition runs the real ResponseFuture / pool / connection code.
 """
-from vt import explore
+from vt import explore, sched
 from vt import reqworld   # noqa: F401  imported here so that forked workers inherit the loaded driver
+from vt import c14sched
+from vt.core import Part
 
 META = {
     'level': 'model_checking',
-    'engine': 'E',
-    'technique': 'explicit-state BFS over response/timer/fault/task histories on the real Session+ResponseFuture, with canonical-state dedup',
+    'engine': 'E+S',
+    'technique': 'explicit-state BFS over response/timer/fault/task histories on the real Session+ResponseFuture, with canonical-state dedup; '
+                 'plus stateless preemption-bounded schedule exploration of concurrent completion by two reactor threads, the timer thread and a client thread',
     'text': 'All histories up to the depth bound of a request with 0-2 speculative executions against 3 hosts: '
             'each pending attempt may be answered (rows, void, read-timeout/overloaded with each retry decision), '
             'its connection may fail, the earliest timer may fire, the next executor task may run; late answers '
             'after completion are included.  In every state: callbacks+errbacks <= 1 per execution and never both, '
             'result() agrees with the delivered outcome, a pair attached after completion fires exactly once; '
-            'whenever no attempt is outstanding and no task is queued, or nothing at all is enabled, the outcome exists.',
-    'note': 'Single-threaded histories (handler atomicity); intra-handler preemption is the business of the schedule '
-            'harnesses.  Virtual server/clock/executor as described in DESIGN.md section 2.',
+            'whenever no attempt is outstanding and no task is queued, or nothing at all is enabled, the outcome exists.  '
+            'Schedule layer: two attempts outstanding on two connections, answered concurrently (every pair over rows / invalid / '
+            'overloaded with RETHROW or RETRY_NEXT_HOST) by two reactor threads while the client timeout fires on the timer thread, an '
+            'executor worker runs retries and a client thread attaches a second callback pair and blocks in result(); scheduling '
+            'points at every virtual lock/event operation and every source line of the completion/timeout/callback methods of '
+            'ResponseFuture; all schedules with <= 1 preemption (thorough: 2 on the result/error pairs).  Oracle: each observer '
+            'invoked exactly once, never both kinds, all observers and result() agree, no deadlock, outcome exists.',
+    'note': 'History layer: single-threaded histories (handler atomicity).  Schedule layer: line-granular preemption inside the '
+            'ResponseFuture methods named in vt/c14sched.py; connection/pool code runs between scheduling points at its lock operations only.  '
+            'Virtual server/clock/executor as described in DESIGN.md section 2.',
     'design_ref': 'C14',
 }
 
@@ -169,13 +179,48 @@ def configs(ctx):
 def run(ctx):
     for name, params, depth in configs(ctx):
         explore.bfs(ctx, H, params, max_depth=depth, label='c14-' + name, max_states=400000 if ctx.thorough else 60000)
+    bound = 1
+    cfgs = ctx.rotate(c14sched.configs(ctx.thorough))
+    jobs = [(c, bound) for c in cfgs]
+    if ctx.thorough:
+        jobs += [(c, 2) for c in cfgs if not c.get('spec_in_race') and 'overloaded' not in c['kinds'] and c['late']]
+    parts = ctx.pmap(_explore_sched, jobs)
+    nexec = 0
+    for (c, b), part in zip(jobs, parts):
+        nexec += part.counters.get('sched_executions', 0)
+        ctx.merge(part)
+    ctx.count('states', nexec)
+    ctx.count('executions', nexec)
+    ctx.cov.setdefault('harnesses', {})['c14-sched'] = {'configs': len(cfgs), 'jobs': len(jobs), 'preemption_bounds': sorted(set(b for _, b in jobs)),
+                                                         'executions': nexec, 'complete': True}
     ctx.cov['rule'] = ('state = event history replayed on a fresh real Session; non-trivial = distinct canonical state at depth >= 3; '
                        'outcomes = (callbacks run, done?, final exception type)')
     ctx.assume('handlers are atomic with respect to each other (single-threaded histories)')
     ctx.assume('virtual server answers are well-formed protocol v4 frames')
 
 
+def _explore_sched(job):
+    params, bound = job
+    part = Part()
+    frontier = [[]]
+    while frontier:
+        nxt = []
+        for prefix in frontier:
+            s = c14sched.harness(params, prefix, part)
+            part.count('sched_executions')
+            part.count('transitions', s.steps)
+            nxt.extend(k for k, _ in sched.children(s.trace, len(prefix), bound))
+        frontier = nxt
+    return part
+
+
 def replay(ctx, data):
+    if 'prefix' in data:
+        part = Part()
+        c14sched.harness(data['params'], data['prefix'], part)
+        for fp, what, _ in part.violations:
+            print(fp, '::', what)
+        return bool(part.violations)
     part = explore.replay(H, data['params'], [tuple(e) for e in data['history']])
     for fp, what, _ in part.violations:
         print(fp, '::', what)
